@@ -429,7 +429,7 @@ impl Prop for C13 {
         };
         let with_derivs = kind != 0 && kind != 5;
         let a: Vec<Vec<Entry>> = fa.iter().map(|r| r.iter().map(|v| Entry { v: *v, d: if with_derivs && kind < 5 && rng.chance(0.5) { Some(gen_deriv(rng, np)) } else { None } }).collect()).collect();
-        let b: Vec<Entry> = (0..rows).map(|_| Entry { v: rng.real(), d: if with_derivs && rng.chance(0.7) { Some(gen_deriv(rng, np)) } else { None } }).collect();
+        let b: Vec<Entry> = (0..rows).map(|_| Entry { v: if rng.chance(0.1) { 0.0 } else { rng.real() }, d: if with_derivs && rng.chance(0.7) { Some(gen_deriv(rng, np)) } else { None } }).collect();
         ctx.crumb(&format!("{} {}x{} {} lsq={}", KINDS[kind], rows, cols, pat, lsq));
         let case = || json!({"kind": KINDS[kind], "rows": rows, "cols": cols, "pattern": pat, "allow_lsq": lsq, "oracle_lu_row_swaps": swaps, "system": describe(&a, &b)});
         let ord8 = 1 + rng.usize(2);
